@@ -40,6 +40,8 @@ TABLE = [
      "TracesFrom / LogsFrom ignored the error of RelatedDataFrom and returned success with no telemetry although a main record was present"),
     ("fix: the main record returned by RelatedDataFrom", "C07", "no-panic", "", "main-record-released-early", 200,
      "RelatedDataFrom released the main record it returns; a main payload delivered twice (second time under a related label) made the consumer index a freed record and panic"),
+    ("fix: the consumer drops its IPC readers", "C14", "no-panic", "", "readers-kept-after-failed-batch", 400,
+     "after a batch failed half-way in Consume (memory limit reached inside an IPC message) the readers stayed registered out of step with the producer; the next batch panicked in dictionary indexing"),
     ("fix: a refused batch no longer leaves", "C08", "no-panic", "", "rows-left-after-refusal", 8000,
      "after a batch was refused half-way through Append, its rows stayed in the shared record builder and the next valid batch panicked with 'value is less than previous value'"),
     ("fix: batches with more parents than 16-bit", "C08", "no-panic", "", "overlimit-panic", 3000,
